@@ -73,6 +73,9 @@ def plan(tier, seed):
             for i in range(n)]
     jobs.append({'space': 'literals-together', 'tier': tier, 'weight': 50})
     jobs.append({'space': 'debuglog', 'tier': tier, 'weight': 50})
+    for i in range(len(TWO_THREADS)):
+        jobs.append({'space': 'two-threads', 'tier': tier, 'scenario': i,
+                     'weight': 300})
     for i in range(8):
         jobs.append({'space': 'mappings', 'tier': tier, 'shard': i, 'of': 8,
                      'weight': 400})
@@ -95,6 +98,8 @@ def run(job, seed):
         return run_debuglog(acc, enf)
     if space == 'mappings':
         return run_mappings(acc, enf, job)
+    if space == 'two-threads':
+        return run_two_threads(acc, job)
     left, right, targets = checks()[job['check']]
     if space == 'trees':
         T = _trees.setdefault('std', Trees())
@@ -137,6 +142,79 @@ def run(job, seed):
     if n != (T.count_mappings_upto(cmax)):
         raise core.HarnessError('tree count %d != recurrence' % n)
     acc.sample(space, {'check': text, 'creds': tree})
+    return acc.result()
+
+
+# (rule text, [(target, creds) of thread A, of thread B])
+TWO_THREADS = [
+    ('pid:%(pid)s', [({'pid': 'p-a'}, {'pid': 'p-b'}),
+                     ({'pid': 'p-b'}, {'pid': 'p-b'})]),
+    ('pid:%(pid)s', [({'pid': 'p-a'}, {'pid': 'p-a'}),
+                     ({'pid': 'p-b'}, {'pid': 'p-a'})]),
+    ('tok.roles.name:%(r)s', [({'r': 'adm'}, {'tok': {'roles': [
+        {'name': 'mem'}, {'name': 'x'}]}}),
+        ({'r': 'mem'}, {'tok': {'roles': [{'name': 'mem'}]}})]),
+    ("'yes':%(v)s", [({'v': 'no'}, {}), ({'v': 'yes'}, {})]),
+    ('role:%(n)s', [({'n': 'a'}, {'roles': ['b']}),
+                    ({'n': 'b'}, {'roles': ['b']})]),
+    ('rule:q and not pid:%(pid)s', [({'pid': 'p-a'}, {'pid': 'p-a'}),
+                                    ({'pid': 'p-b'}, {'pid': 'p-a'})]),
+]
+
+
+def run_two_threads(acc, job):
+    """The parsed check tree is shared by every request of a threaded
+    service.  Two threads decide the SAME rule on the same enforcer, each with
+    its own target and credentials; every schedule with <= 1 preemption
+    (thorough: 2) at the line boundaries of the library: each thread's
+    decision is the one its own inputs call for (engine E3, mc/sched.py)."""
+    import os as _os
+    from mc import sched
+    text, (a, b) = TWO_THREADS[job['scenario']]
+    lib = _os.path.join(core.REPO, 'oslo_policy') + _os.sep
+    bound = 1 if job['tier'] == 'quick' else 2
+    exp = {}
+    for n, (target, creds) in (('A', a), ('B', b)):
+        e = world.bare_enforcer()
+        world.set_rules(e, {'p': text, 'q': '@'})
+        exp[n] = world.decide(e, 'p', dict(target), dict(creds))
+
+    def make():
+        enf = world.bare_enforcer()
+        world.set_rules(enf, {'p': text, 'q': '@'})
+
+        def body(target, creds):
+            return lambda: bool(enf.enforce('p', dict(target), dict(creds)))
+        return {'bodies': {'A': body(*a), 'B': body(*b)}, 'lib_dir': lib}
+
+    def check(ex, pre):
+        acc.case('two-threads', bool(pre))
+        acc.ev()
+        for n in ('A', 'B'):
+            got = ex.result.get(n)
+            got = ('ok', got[1]) if got and got[0] == 'ok' else \
+                ('exc', got[1] if got else 'no result')
+            if got != exp[n]:
+                acc.violation(
+                    'two-threads|%s|%s' % (text, 'allows' if got ==
+                                           ('ok', True) else 'denies' if
+                                           got[0] == 'ok' else got[1]),
+                    'two threads on one enforcer, rule %r: thread %s (target '
+                    '%r, creds %r) decides %r, alone it decides %r; '
+                    'preemptions %r' % (text, n, (a if n == 'A' else b)[0],
+                                        (a if n == 'A' else b)[1], got,
+                                        exp[n], pre),
+                    {'check': text, 'threads': [list(a), list(b)],
+                     'preemptions': [list(x) for x in pre]}, exp[n], got,
+                    'two-threads', size=len(pre))
+        acc.outcome('two-threads-%s-%s' % (exp['A'][1], exp['B'][1]))
+    stats = {'executions': 0}
+    for first in ('A', 'B'):
+        # warm-up execution (see C20), then the exploration proper
+        sched.Execution(first=first, preemptions=[], **make()).run()
+        sched.explore(make, first, bound, check, (), None, None, stats)
+    acc.extra['two_threads_executions'] = stats['executions']
+    acc.sample('two-threads', {'rule': text})
     return acc.result()
 
 
